@@ -485,6 +485,8 @@ def replay(path):
     print(d['what'])
     r = d['replay']
     run = core.Run('C19', 'quick')
+    if r.get('kind') == 'dead-worker-cleanup':
+        return core.replay_family('C19', d['key'], lambda run_: dead_worker_cleanup(run_, extract()['expiry']))
     if r.get('kind') == 'real-helper':
         real_helper(run, r.get('mode') == 'release')
     elif r.get('kind') == 'death':
